@@ -118,6 +118,12 @@ def discharge(cx, obligations, timeout_s=10.0, jobs=None, progress=None):
 
     def one(ob):
         qs = cx.query(ob, relevant=True, level="same")
+        qf = cx.query(ob, relevant=True, level="frame")
+        if qf:
+            r = solve_multi([("frame", qf, False)], 3.0)
+            if r["status"] == "unsat":
+                ob.result = r
+                return ob
         r = solve_multi([("rel", cx.query(ob, relevant=True), False), ("full", cx.query(ob), True)] + ([("same", qs, False)] if qs else []), timeout_s)
         if r["status"] != "unsat":
             r2 = solve_multi([("dir", cx.query(ob, relevant=True, level=0), False)], min(timeout_s, 10.0))
